@@ -184,9 +184,15 @@ impl ServerState {
         let rx = self.cb_rx.clone();
         let last_compilation_state = self.last_compilation_state.clone();
         std::thread::spawn(move || {
+            #[cfg(fuellabs_sway_verif)]
+            sway_types::verif_hooks::about_to_block("worker.recv", &|| String::new());
             while let Ok(msg) = rx.recv() {
                 match msg {
                     TaskMessage::CompilationContext(ctx) => {
+                        #[cfg(fuellabs_sway_verif)]
+                        sway_types::verif_hooks::resumed("worker.got", &|| {
+                            format!("{:?}", ctx.version)
+                        });
                         let uri = &ctx.uri;
                         let path = uri.to_file_path().unwrap();
                         let mut engines_clone = ctx.engines.read().clone();
@@ -213,7 +219,15 @@ impl ServerState {
                         }
 
                         // Set the is_compiling flag to true so that the wait_for_parsing function knows that we are compiling
+                        #[cfg(fuellabs_sway_verif)]
+                        sway_types::verif_hooks::point("worker.before_set_compiling", &|| {
+                            String::new()
+                        });
                         is_compiling.store(true, Ordering::SeqCst);
+                        #[cfg(fuellabs_sway_verif)]
+                        sway_types::verif_hooks::point("worker.compile_begin", &|| {
+                            format!("{:?}", ctx.version)
+                        });
                         match session::parse_project(
                             uri,
                             &engines_clone,
@@ -255,15 +269,38 @@ impl ServerState {
                             }
                         }
 
+                        #[cfg(fuellabs_sway_verif)]
+                        sway_types::verif_hooks::point("worker.compile_end", &|| {
+                            format!(
+                                "{:?} {:?} retrigger={}",
+                                ctx.version,
+                                *last_compilation_state.read(),
+                                retrigger_compilation.load(Ordering::SeqCst)
+                            )
+                        });
                         // Reset the flags to false
                         is_compiling.store(false, Ordering::SeqCst);
+                        #[cfg(fuellabs_sway_verif)]
+                        sway_types::verif_hooks::point("worker.cleared_compiling", &|| {
+                            String::new()
+                        });
                         retrigger_compilation.store(false, Ordering::SeqCst);
+                        #[cfg(fuellabs_sway_verif)]
+                        sway_types::verif_hooks::point("worker.cleared_retrigger", &|| {
+                            String::new()
+                        });
 
                         // Make sure there isn't any pending compilation work
                         if rx.is_empty() {
+                            #[cfg(fuellabs_sway_verif)]
+                            sway_types::verif_hooks::point("worker.rx_empty", &|| String::new());
                             // finished compilation, notify waiters
                             finished_compilation.notify_waiters();
+                            #[cfg(fuellabs_sway_verif)]
+                            sway_types::verif_hooks::point("worker.notified", &|| String::new());
                         }
+                        #[cfg(fuellabs_sway_verif)]
+                        sway_types::verif_hooks::about_to_block("worker.recv", &|| String::new());
                     }
                     TaskMessage::Terminate => {
                         // If we receive a terminate message, we need to exit the thread
@@ -304,6 +341,15 @@ impl ServerState {
     /// this process until `is_compiling` becomes false.
     pub async fn wait_for_parsing(&self) {
         loop {
+            #[cfg(fuellabs_sway_verif)]
+            sway_types::verif_hooks::point("wfp.check", &|| {
+                format!(
+                    "is_compiling={} uninit={} rx_empty={}",
+                    self.is_compiling.load(Ordering::SeqCst),
+                    *self.last_compilation_state.read() == LastCompilationState::Uninitialized,
+                    self.cb_rx.is_empty()
+                )
+            });
             // Check both the is_compiling flag and the last_compilation_state.
             // Wait if is_compiling is true or if the last_compilation_state is Uninitialized.
             if !self.is_compiling.load(Ordering::SeqCst)
@@ -311,12 +357,20 @@ impl ServerState {
             {
                 // compilation is finished, lets check if there are pending compilation requests.
                 if self.cb_rx.is_empty() {
+                    #[cfg(fuellabs_sway_verif)]
+                    sway_types::verif_hooks::point("wfp.break", &|| String::new());
                     // no pending compilation work, safe to break.
                     break;
                 }
             }
+            #[cfg(fuellabs_sway_verif)]
+            sway_types::verif_hooks::point("wfp.before_notified", &|| String::new());
+            #[cfg(fuellabs_sway_verif)]
+            sway_types::verif_hooks::about_to_block("wfp.park", &|| String::new());
             // We are still compiling, lets wait to be notified.
             self.finished_compilation.notified().await;
+            #[cfg(fuellabs_sway_verif)]
+            sway_types::verif_hooks::resumed("wfp.woke", &|| String::new());
         }
     }
 
